@@ -76,6 +76,14 @@ Decoded(d0, dT, w, i, useDefaults) ==
   IN [n \in present \cup added |->
         IF n \in present THEN DecodedVal(d0, dT, w, n, i[n]) ELSE "int1"]
 
+(* filling of missing attributes requested: every absent attribute that has an    *)
+(* attribute USE and got no value from a fixed / default constraint is reported     *)
+(* with the null value                                                             *)
+DecodedFill(d0, dT, w, i, useDefaults) ==
+  LET base == Decoded(d0, dT, w, i, useDefaults)
+      nulls == {n \in {"n0", "nT"} : n \notin DOMAIN base /\ i[n] = "absent" /\ DeclOf(d0, dT, n) # NoDecl}
+  IN [n \in DOMAIN base \cup nulls |-> IF n \in DOMAIN base THEN base[n] ELSE "null"]
+
 ------------------------------------------------------------------------------
 (* Laws (obligation A) *)
 WiderWildcardAdmitsMore ==      \* "any" admits whatever a narrower constraint admits
@@ -97,6 +105,13 @@ TighterUseNarrows ==
          => ValidAttrs([use |-> "optional", vc |-> "none"], dT, w, i)
     /\ ValidAttrs([use |-> "optional", vc |-> "fixed"], dT, w, i)
          => ValidAttrs([use |-> "optional", vc |-> "none"], dT, w, i)
+FillOnlyAdds ==
+  \A d0 \in Decl : \A dT \in Decl : \A i \in [n0 : {"absent", "v1"}, nT : {"absent", "v2"}, nA : {"absent"}, nF : {"absent"}] :
+    \A u \in BOOLEAN :
+      LET a == Decoded(d0, dT, NoWild, i, u)  b == DecodedFill(d0, dT, NoWild, i, u) IN
+        /\ DOMAIN a \subseteq DOMAIN b /\ \A n \in DOMAIN a : a[n] = b[n]
+        /\ \A n \in DOMAIN b \ DOMAIN a : b[n] = "null"
+ASSUME FillOnlyAdds
 ASSUME WiderWildcardAdmitsMore
 ASSUME SkipAdmitsMoreThanLaxThanStrict
 ASSUME TighterUseNarrows
